@@ -492,6 +492,8 @@ def main(pid: str, argv):
     for i in mism:
         c, r = cases[i], impl_res[i]
         kf = mod.known_finding(c, known) if hasattr(mod, "known_finding") else None
+        if not kf and hasattr(mod, "known_finding_result"):
+            kf = mod.known_finding_result(c, r, known)
         if kf:
             known_hits.append(kf)
             continue
@@ -556,6 +558,11 @@ def main(pid: str, argv):
         "known_findings_hit": sorted(set(known_hits)),
         "exhaustive": False,
     }
+    if hasattr(mod, "units") and impl_res:
+        try:
+            cov[mod.UNITS_NAME] = sum(mod.units(c, r) for c, r in zip(cases, impl_res))
+        except Exception:  # noqa
+            pass
     cov.update(stats)
     if hasattr(mod, "extra_coverage"):
         cov.update(mod.extra_coverage())
